@@ -74,6 +74,20 @@ mut("c10-cleanlogs-prefix", ["C10"], [("plugins/run.py", "    for log_name in lo
 mut("c10-template-over-kw", ["C10"], [("workflow.py", "            options=chain(self.defaults, template.options, options),", "            options=chain(self.defaults, options, template.options),")], "template options override keyword options")
 mut("c10-unquoted-cd", ["C10"], [("backends/slurm.py", "        out.append(\"cd {}\".format(shlex.quote(target.working_dir)))", "        out.append(\"cd {}\".format(target.working_dir))")], "original defect: unquoted cd")
 mut("c10-sge-total-memory", ["C10"], [("backends/sge.py", "                option_value = \"{}{}\".format(number // cores, unit)", "                option_value = \"{}{}\".format(number, unit)")], "SGE memory not converted to per-core")
+mut(
+    "c10-lsf-filter-after-substitution",
+    ["C10"],
+    [
+        (
+            "backends/lsf.py",
+            "            if all(name in values for name in re.findall(r\"\\{(\\w+)\\}\", line))\n        )\n",
+            "            if all(name in values for name in re.findall(r\"\\{(\\w+)\\}\", line))\n        )\n        header = \"\\n\".join(ln for ln in header.splitlines() if not re.search(r\"\\{(memory|cores|queue)\\}\", ln))\n",
+        )
+    ],
+    "original defect (cd0e239): left-over placeholders looked for in the substituted header",
+)
+mut("c09-save-late", ["C09"], [("backends/base.py", "        self._job_states[job_id] = BackendStatus.SUBMITTED\n", "        self._job_states[job_id] = BackendStatus.SUBMITTED\n        if len(self._tracked_jobs) % 2:\n            return\n")], "table written to disk after every second accepted job only")
+mut("c09-no-save-on-interrupt", ["C09"], [("backends/base.py", "    def __exit__(self, *exc):\n        self.close()", "    def __exit__(self, *exc):\n        if exc[0] is KeyboardInterrupt:\n            return\n        self.close()")], "Ctrl-C skips close(); an interrupt between storing the id and writing the table loses it")
 # ---------------------------------------------------------------- C11
 L = "backends/local.py"
 mut("c11-first-completed", ["C11"], [(L, "                    return_when=asyncio.ALL_COMPLETED,", "                    return_when=asyncio.FIRST_COMPLETED,")], "waits for the first dependency only")
